@@ -5,7 +5,11 @@ import (
 	"bytes"
 	"encoding/json"
 	"fmt"
+	"os"
 	"strings"
+	"sync"
+	"syscall"
+	"time"
 
 	"verif/mx"
 )
@@ -25,6 +29,13 @@ func JSON(v any) string {
 // Universal inspects one in-process run for the universal clauses (termination, no internal panic).
 // It returns "" when the run is clean, otherwise the clause name and a detail text.
 func Universal(r mx.Result) (clause, detail string) {
+	if r.Crash != "" {
+		d := "a builtin panicked (crash.Handler report on fd 2): " + clip(r.Crash, 600)
+		if r.Hang {
+			d += "; the caller is left blocked (the crashed process never signals termination)"
+		}
+		return "no-panic", d
+	}
 	if r.Hang {
 		return "terminates", "caller still blocked after the ceiling (a builtin that panics never signals termination)\n" + clip(r.HangStack, 1200)
 	}
@@ -73,4 +84,110 @@ func EqualLists(a, b []string) bool {
 		}
 	}
 	return true
+}
+
+// ---- crash-aware runner ---------------------------------------------------------------------------
+//
+// A builtin that panics is recovered by murex's crash.Handler, which prints a report ending in
+// "!!! Murex has crashed !!!" to fd 2 and returns without signalling termination: the caller then
+// stays blocked until mx.Run's ceiling (20 s). Run watches fd 2 for that marker so that such a case
+// is classified at once (clause no-panic) instead of costing the full ceiling. Everything read from
+// fd 2 is passed through to the original descriptor.
+
+const crashMarker = "!!! Murex has crashed !!!"
+
+var (
+	watchOnce sync.Once
+	crashCh   = make(chan string, 64)
+)
+
+func watch() {
+	r, w, err := os.Pipe()
+	if err != nil {
+		return
+	}
+	saved, err := syscall.Dup(2)
+	if err != nil {
+		return
+	}
+	if err := syscall.Dup2(int(w.Fd()), 2); err != nil {
+		return
+	}
+	orig := os.NewFile(uintptr(saved), "stderr-orig")
+	go func() {
+		var acc []byte
+		buf := make([]byte, 32768)
+		for {
+			n, err := r.Read(buf)
+			if n > 0 {
+				orig.Write(buf[:n])
+				acc = append(acc, buf[:n]...)
+				for {
+					i := bytes.Index(acc, []byte(crashMarker))
+					if i < 0 {
+						break
+					}
+					report := string(acc[:i])
+					acc = acc[i+len(crashMarker):]
+					select {
+					case crashCh <- report:
+					default:
+					}
+				}
+				if len(acc) > 1<<16 {
+					acc = acc[len(acc)-(1<<15):]
+				}
+			}
+			if err != nil {
+				return
+			}
+		}
+	}()
+}
+
+// crashSummary keeps the panic value and the murex frames of a crash report.
+func crashSummary(report string) string {
+	if i := strings.LastIndex(report, "Error: "); i >= 0 {
+		report = report[i:]
+	}
+	var keep []string
+	for _, l := range strings.Split(report, "\n") {
+		l = strings.TrimSpace(l)
+		switch {
+		case strings.HasPrefix(l, "Error: "):
+			keep = append(keep, l)
+		case strings.HasPrefix(l, "- function: ") && !strings.Contains(l, "runtime."):
+			keep = append(keep, strings.TrimSuffix(strings.TrimPrefix(l, "- function: "), "(...)"))
+		}
+	}
+	return strings.Join(keep, " <- ")
+}
+
+// Run is mx.Run with immediate crash detection.
+func Run(block string, o *mx.Opt) mx.Result {
+	watchOnce.Do(watch)
+	for len(crashCh) > 0 {
+		<-crashCh
+	}
+	done := make(chan mx.Result, 1)
+	go func() { done <- mx.Run(block, o) }()
+	select {
+	case r := <-done:
+		// a crash report may have been printed by a run that nevertheless returned
+		select {
+		case rep := <-crashCh:
+			r.Crash = "Murex has crashed: " + crashSummary(rep)
+		default:
+		}
+		return r
+	case rep := <-crashCh:
+		// give the run a moment to return on its own (it does not after a recovered builtin panic)
+		select {
+		case r := <-done:
+			r.Crash = "Murex has crashed: " + crashSummary(rep)
+			return r
+		case <-time.After(300 * time.Millisecond):
+		}
+		return mx.Result{Hang: true, Crash: "Murex has crashed: " + crashSummary(rep)}
+	}
 }
